@@ -262,6 +262,9 @@ func runCases(args []string) {
 	if pd.extra != nil && tier != "replay" {
 		meta.Extra, meta.ExtraViolations = pd.extra(tier, seed, outdir)
 	}
+	if tier != "replay" {
+		meta.ExtraViolations = append(meta.ExtraViolations, e2eViolations...)
+	}
 	sort.Strings(meta.ExecErrors)
 	data, _ := json.MarshalIndent(meta, "", " ")
 	if err := os.WriteFile(filepath.Join(outdir, "meta.json"), data, 0o644); err != nil {
